@@ -1,6 +1,6 @@
 """C14 count-min: one cell-addressing function shared by update and queries, index shape, min reduction, bounds,
 merge guards and linearity, configuration guard not defeated by 32-bit wrap-around."""
-from astu import C, ctxt, gt_pair, eq_const, strip, strip_all, walk, walkp, txt, short, is_this_field, field_name, stmts_of, always_throws, functions_by, local_decls
+from astu import C, ctxt, gt_pair, eq_const, reach, reach_txt, ctext, strip, strip_all, walk, walkp, txt, short, is_this_field, field_name, stmts_of, always_throws, functions_by, local_decls
 from vlib.core import ob
 
 REC = "datasketches::count_min_sketch"
